@@ -139,8 +139,11 @@ def _harness(ctx, binary, em, what):
         for r in ex.map(one, em.paths):
             recs += r
     done = sum(r["cases"] for r in recs if r.get("summary"))
-    if done != em.n:
+    skipped = sum(r.get("skipped", 0) for r in recs if r.get("summary"))
+    if done + skipped != em.n:
         raise vlib.InfraError("harness processed %d of %d cases (%s)" % (done, em.n, what))
+    if skipped:
+        ctx.cov["skipped_after_stalls"] = ctx.cov.get("skipped_after_stalls", 0) + skipped
     ctx.cov["traces_validated_against_impl"] += done
     ctx.cov["evaluations"] += done
     return [r for r in recs if r.get("mismatch")]
@@ -158,7 +161,7 @@ def _single(ctx, binary, case):
     return [r for r in recs if r.get("mismatch")]
 
 
-def _emit(ctx, maxops, label, shards, simulate=None, seed=None):
+def _emit(ctx, maxops, label, shards, simulate=None, seed=None, pre=PRE, minops=0):
     """Histories of the corrected specification: all of length <= maxops, or `simulate` random ones of length maxops."""
     em = Emitted(ctx, "cases-" + label, shards)
     if simulate:
@@ -166,7 +169,8 @@ def _emit(ctx, maxops, label, shards, simulate=None, seed=None):
                                          invs=["TypeOK", "ExactlyOnce", "NeverWrong", "TracksCurrent"]),
                  simulate=simulate, depth=12 * maxops + 20, seed=seed, label=label, case_sink=em.sink, timeout=1500)
     else:
-        vlib.tlc(ctx, "FileStream", _cfg(maxops, emit=True, view=False, invs=["TypeOK", "ExactlyOnce"]),
+        vlib.tlc(ctx, "FileStream", _cfg(maxops, emit=True, view=False, invs=["TypeOK", "ExactlyOnce"], pre=pre,
+                                         minops=minops),
                  label=label, case_sink=em.sink, timeout=2400)
     em.close()
     return em
@@ -206,6 +210,7 @@ def _classify(ctx, binary, mism, opendevs, what):
         ctx.cov["explained_by_open_findings"] = ctx.cov.get("explained_by_open_findings", 0) + len(mism) - len(unexplained)
     vlib.log("%s: %d mismatches against the corrected specification, %d not explained by open findings" % (
         what, len(mism), len(unexplained)))
+    unexplained.sort(key=lambda m: bool(m.get("stall")))
     for m in unexplained[:8]:
         # once more, alone, in a fresh process, before it is believed
         again = _single(ctx, binary, m["case"])
@@ -220,20 +225,25 @@ def _classify(ctx, binary, mism, opendevs, what):
 def _witnesses(ctx, binary, opendevs):
     """Re-execute the witness of every open finding: the real code must still depart from the corrected
     specification there and agree with the specification with exactly that deviation on."""
-    for d in opendevs:
-        ent = vlib.open_finding(ctx.prop, d)
-        w = ent["witness"]
-        sc = [{"pre": w.get("pre", "empty"), "ops": list(w["ops"])}]
-        n0 = ctx.cov["traces_validated_against_impl"]
-        m1 = _harness(ctx, binary, _scripted(ctx, sc, (), "witness-ideal-" + d), "witness " + d)
-        m2 = _harness(ctx, binary, _scripted(ctx, sc, (d,), "witness-" + d), "witness " + d + " with the deviation on")
-        ctx.cov["traces_validated_against_impl"] = n0 + 1
+    ents = {d: vlib.open_finding(ctx.prop, d) for d in opendevs}
+    scripts = {d: {"pre": e["witness"].get("pre", "empty"), "ops": list(e["witness"]["ops"])} for d, e in ents.items()}
+    if not scripts:
+        return
+    n0 = ctx.cov["traces_validated_against_impl"]
+    ideal = _harness(ctx, binary, _scripted(ctx, list(scripts.values()), (), "witness-ideal"), "witnesses")
+    departs = {key(m["case"]): m for m in ideal}
+    for d, sc in scripts.items():
+        ent = ents[d]
+        k = sc["pre"] + ":" + ",".join(sc["ops"] + ["stop"])
+        m1 = departs.get(k)
+        m2 = _harness(ctx, binary, _scripted(ctx, [sc], (d,), "witness-" + d), "witness " + d + " with the deviation on")
         if m1 and not m2:
-            ctx.known_finding(d, "%s [%s] witness: %s -> %s" % (ent["what"], ent["site"], render(m1[0]["case"]), m1[0]["why"]))
+            ctx.known_finding(d, "%s [%s] witness: %s -> %s" % (ent["what"], ent["site"], render(m1["case"]), m1["why"]))
         elif not m1:
             vlib.log("open finding %s: the witness no longer departs from the corrected specification" % d)
         else:
             vlib.log("open finding %s: the witness is not explained by the deviation alone: %s" % (d, m2[0]["why"]))
+    ctx.cov["traces_validated_against_impl"] = n0 + len(scripts)
 
 
 def run(ctx):
@@ -255,15 +265,21 @@ def run(ctx):
 
     # 3. replay on the real filesystem
     _witnesses(ctx, binary, opendevs)
-    replay_ops = 6 if ctx.thorough else 4
     shards = 4 if ctx.thorough else 2
     seen = set()
-    em = _emit(ctx, replay_ops, "ops%d" % replay_ops, shards)
-    for c in em.first:
-        ctx.sample({"history": render(c), "expected_lines_per_step": [o["lines"] for o in c["obs"]]})
-    _classify(ctx, binary, _harness(ctx, binary, em, "histories <= %d" % replay_ops), opendevs, "histories <= %d" % replay_ops)
-    seen |= em.nontrivial
-    total = em.n
+    total = 0
+    # (bound, initial states): all four initial states up to the first bound; thorough adds one more operation
+    # for the two initial states in which the very first operations already matter (empty file, pending fragment)
+    plan = [(5, PRE, 0), (6, ["empty", "frag"], 6)] if ctx.thorough else [(4, PRE, 0)]
+    replay_ops = plan[-1][0]
+    for bound, pre, least in plan:
+        what = "histories of %d..%d operations from %s" % (least, bound, "/".join(pre))
+        em = _emit(ctx, bound, "ops%d" % bound, shards, pre=pre, minops=least)
+        for c in em.first[:2]:
+            ctx.sample({"history": render(c), "expected_lines_per_step": [o["lines"] for o in c["obs"]]})
+        _classify(ctx, binary, _harness(ctx, binary, em, what), opendevs, "histories <= %d" % bound)
+        seen |= em.nontrivial
+        total += em.n
     # long simulated histories
     sim = _emit(ctx, 40, "sim40", shards, simulate=1500 if ctx.thorough else 150, seed=ctx.seed * 31 + 5)
     if sim.first:
@@ -272,12 +288,16 @@ def run(ctx):
     seen |= sim.nontrivial
     total += sim.n
 
+    if ctx.cov.get("skipped_after_stalls") and not ctx.violations:
+        raise vlib.InfraError("%d cases were skipped after barriers stalled repeatedly, and the stalls did not reproduce alone"
+                              % ctx.cov["skipped_after_stalls"])
     ctx.cov["distinct_nontrivial"] = len(seen)
     ctx.cov["exhaustive"] = True
     ctx.cov["rule"] = ("replayed histories (initial file state + operation sequence + stop) in which a file generation ends "
                        "(truncate, rename+create, copy+truncate, delete, or tailing stops) while an unterminated fragment "
-                       "is pending; all histories of <= %d operations and %d simulated 40-operation histories were replayed "
-                       "(%d in total)" % (replay_ops, sim.n, total))
+                       "is pending; replayed: %s, and %d simulated 40-operation histories "
+                       "(%d in total)" % ("; ".join("all histories of %d..%d operations from initial states %s" % (m, b, "/".join(p))
+                                                    for b, p, m in plan), sim.n, total))
     ctx.cov["constants"] = {"model_MaxOps": model_ops, "replay_MaxOps": replay_ops, "operations": OPS, "initial_states": PRE,
                             "sim_ops": 40, "sim_behaviours_replayed": sim.n, "model_distinct_states": r.distinct}
     ctx.assumptions += [
